@@ -196,7 +196,7 @@ def run(ctx, idx):
     prog = idx.cls("mpilot.program", "Program")
     fs = prog.methods["from_source"]
     n_sites = 0
-    for f in [fs] + list(fs.nested.values()):
+    for f in K.helper_closure(idx, fs):
         for c in idx.own_calls(f):
             q = idx.qualname(f.module, c.func, f) or ""
             if q.endswith("arguments.Argument") or q.endswith("arguments.ListArgument"):
@@ -286,13 +286,20 @@ def run(ctx, idx):
         arg = m.args[0] if m.args else None
         ok = False
         why = "the marked line is `%s`" % K.src(arg)
+        if isinstance(arg, ast.Name):
+            # `marked = lines[i]` first, then formatted
+            d = K.single_defs(cli).get(arg.id)
+            if isinstance(d, ast.Subscript):
+                arg = d
         if isinstance(arg, ast.Subscript) and isinstance(arg.value, ast.Name):
             lines_name = arg.value.id
             ix = arg.slice
             ix_src = K.src(ix)
             if isinstance(ix, ast.Name):
                 defs = [n.value for n in s_all if isinstance(n, ast.Assign) and any(isinstance(t, ast.Name) and t.id == ix.id for t in n.targets)]
-                ix_src = K.src(defs[0]) if len(defs) == 1 else "?"
+                ix_src = K.src(K.expand(cli, defs[0])) if len(defs) == 1 else "?"
+            else:
+                ix_src = K.src(K.expand(cli, ix))
             ok_ix = ix_src.replace(" ", "") in ("ex.lineno-1",) or ix_src.replace(" ", "").endswith(".lineno-1")
             joined = [n for n in s_all if isinstance(n, ast.Assign) and isinstance(n.value, ast.Call) and isinstance(n.value.func, ast.Attribute) and n.value.func.attr == "join" and n.value.args and isinstance(n.value.args[0], ast.Name) and n.value.args[0].id == lines_name
                       and isinstance(n.value.func.value, ast.Constant) and n.value.func.value.value == "\n"]
